@@ -93,13 +93,13 @@ theorem fillBig_fields (n : Num) : n.fillBig = { n with big := n.fillBig.big } :
 /-! ## The tracking invariant -/
 
 /-- the integer fields hold the parts exactly (`uint64` values read as naturals: nothing has wrapped) -/
-def Core (n : Num) (p : Parts) : Prop :=
+def Held (n : Num) (p : Parts) : Prop :=
   n.neg = p.neg ∧ n.i.toNat = natOf p.ip ∧ n.frac.toNat = fracNat p.fo ∧ n.div.toNat = 10 ^ fracLen p.fo ∧
   fracLen p.fo ≤ 18 ∧ n.exp.toNat = expNat p.eo ∧ n.negExp = expNeg p.eo
 
 /-- not in text form, fields exact, integer part within int64 -/
 def Exact (n : Num) (p : Parts) : Prop :=
-  n.big = [] ∧ Core n p ∧ natOf p.ip ≤ 9223372036854775807
+  n.big = [] ∧ Held n p ∧ natOf p.ip ≤ 9223372036854775807
 
 /-- fraction digits of the text against those of the literal: same count, same value -/
 def FSim : Option Bytes → Option Bytes → Prop
@@ -188,7 +188,7 @@ theorem sim_pval {p p' : Parts} (hs : Sim p p') (hw : p.WF) : p'.WF ∧ pval p' 
 
 theorem pow10_18 : (10 : Nat) ^ 18 = 1000000000000000000 := by decide
 
-theorem core_frac_lt {n : Num} {p : Parts} (hc : Core n p) (hfd : ∀ fs, p.fo = some fs → Dig fs) :
+theorem held_frac_lt {n : Num} {p : Parts} (hc : Held n p) (hfd : ∀ fs, p.fo = some fs → Dig fs) :
     n.frac.toNat < 10 ^ fracLen p.fo := by
   obtain ⟨_, _, h3, _, _, _, _⟩ := hc
   rw [h3]
@@ -196,9 +196,9 @@ theorem core_frac_lt {n : Num} {p : Parts} (hc : Core n p) (hfd : ∀ fs, p.fo =
   | none => simp [fracNat, fracLen]
   | some fs => exact natOf_lt_pow fs (isDigitB_of_dig (hfd fs hfo))
 
-theorem core_frac_lt18 {n : Num} {p : Parts} (hc : Core n p) (hfd : ∀ fs, p.fo = some fs → Dig fs) :
+theorem held_frac_lt18 {n : Num} {p : Parts} (hc : Held n p) (hfd : ∀ fs, p.fo = some fs → Dig fs) :
     n.frac.toNat < 1000000000000000000 := by
-  have h1 := core_frac_lt hc hfd
+  have h1 := held_frac_lt hc hfd
   have h2 : 10 ^ fracLen p.fo ≤ 10 ^ 18 := Nat.pow_le_pow_right (by omega) hc.2.2.2.2.1
   rw [pow10_18] at h2
   omega
@@ -206,10 +206,10 @@ theorem core_frac_lt18 {n : Num} {p : Parts} (hc : Core n p) (hfd : ∀ fs, p.fo
 /-- the parts `FillBig` writes agree with the parts the fields hold, provided a fraction that has been
 started has a digit and an exponent that has been started is positive (the only states in which
 `FillBig` is called on the way) -/
-theorem core_sim {n : Num} {p : Parts} (hc : Core n p)
+theorem held_sim {n : Num} {p : Parts} (hc : Held n p)
     (hfo : ∀ fs, p.fo = some fs → Dig fs ∧ fs ≠ []) (heo : ∀ x, p.eo = some x → 0 < natOf x.es) :
     Sim p (fillParts n) := by
-  have hfl := core_frac_lt hc (fun fs h => (hfo fs h).1)
+  have hfl := held_frac_lt hc (fun fs h => (hfo fs h).1)
   obtain ⟨h1, h2, h3, h4, h5, h6, h7⟩ := hc
   refine ⟨h1, fmtNat_dig _, fmtNat_ne_nil _, by simp only [fillParts, natOf_fmtNat, h2], ?_, ?_⟩
   · -- fraction
@@ -266,10 +266,10 @@ theorem core_sim {n : Num} {p : Parts} (hc : Core n p)
         by_cases hs : x.sg = [45] <;> simp [hs]
 
 /-- `FillBig` on exact fields produces an agreeing text -/
-theorem core_fill {n : Num} {p : Parts} (hbig : n.big = []) (hc : Core n p)
+theorem held_fill {n : Num} {p : Parts} (hbig : n.big = []) (hc : Held n p)
     (hfo : ∀ fs, p.fo = some fs → Dig fs ∧ fs ≠ []) (heo : ∀ x, p.eo = some x → 0 < natOf x.es) :
     TextB n.fillBig.big p :=
-  ⟨fillParts n, fillBig_render n hbig (core_frac_lt18 hc (fun fs h => (hfo fs h).1)), core_sim hc hfo heo⟩
+  ⟨fillParts n, fillBig_render n hbig (held_frac_lt18 hc (fun fs h => (hfo fs h).1)), held_sim hc hfo heo⟩
 
 /-! ## Bytes appended in text form keep the text agreeing -/
 
@@ -388,11 +388,11 @@ theorem tracks_addDigit (n : Num) (s : Bool) (ip : Bytes) (b : UInt8) (hb : Spec
         have : (10 : UInt64).toNat = 10 := rfl
         rw [this, ← c2]
         omega
-      have hcore' : Core { n with i := n.i * 10 + (b - 48).toUInt64 } ⟨s, ip ++ [b], none, none⟩ :=
+      have hcore' : Held { n with i := n.i * 10 + (b - 48).toUInt64 } ⟨s, ip ++ [b], none, none⟩ :=
         ⟨c1, hval, c3, c4, c5, c6, c7⟩
       by_cases hmax : MaxInt64 < n.i * 10 + (b - 48).toUInt64
       · simp only [hmax, ↓reduceIte]
-        exact tracks_of_text (core_fill hbig hcore' (fun _ h => nomatch h) (fun _ h => nomatch h))
+        exact tracks_of_text (held_fill hbig hcore' (fun _ h => nomatch h) (fun _ h => nomatch h))
       · simp only [hmax, ↓reduceIte]
         refine Or.inl ⟨hbig, hcore', ?_⟩
         rw [UInt64.lt_iff_toNat_lt, hval] at hmax
@@ -401,7 +401,7 @@ theorem tracks_addDigit (n : Num) (s : Bool) (ip : Bytes) (b : UInt8) (hb : Spec
         omega
     · simp only [hle, ↓reduceIte]
       have ht : TextB n.fillBig.big ⟨s, ip, none, none⟩ :=
-        core_fill hbig ⟨c1, c2, c3, c4, c5, c6, c7⟩ (fun _ h => nomatch h) (fun _ h => nomatch h)
+        held_fill hbig ⟨c1, c2, c3, c4, c5, c6, c7⟩ (fun _ h => nomatch h) (fun _ h => nomatch h)
       exact tracks_of_text (textB_digit hb ht)
   · unfold Num.addDigit
     simp only [big_len_pos hne, ↓reduceIte]
@@ -435,13 +435,13 @@ theorem tracks_addFrac (n : Num) (s : Bool) (ip fs : Bytes) (b : UInt8) (hb : Sp
         have : (10 : UInt64).toNat = 10 := rfl
         rw [this, c4]
         omega
-      have hcore' : Core { n with frac := n.frac * 10 + (b - 48).toUInt64, div := n.div * 10 }
+      have hcore' : Held { n with frac := n.frac * 10 + (b - 48).toUInt64, div := n.div * 10 }
           ⟨s, ip, some (fs ++ [b]), none⟩ :=
         ⟨c1, c2, hfrac, hdiv, by simp only [fracLen, List.length_append, List.length_singleton]; omega, c6, c7⟩
       by_cases hmax : MaxInt64 < n.frac * 10 + (b - 48).toUInt64
       · -- cannot happen (at most 18 fraction digits are held), but the text would agree anyway
         simp only [hmax, ↓reduceIte]
-        exact tracks_of_text (core_fill hbig hcore'
+        exact tracks_of_text (held_fill hbig hcore'
           (fun x hx => by cases hx; exact ⟨hfs.snoc hb, by simp⟩) (fun _ h => nomatch h))
       · simp only [hmax, ↓reduceIte]
         exact Or.inl ⟨hbig, hcore', hfit⟩
@@ -455,7 +455,7 @@ theorem tracks_addFrac (n : Num) (s : Bool) (ip fs : Bytes) (b : UInt8) (hb : Sp
         have : BigLimit.toNat = 922337203685477580 := rfl
         omega
       have ht : TextB n.fillBig.big ⟨s, ip, some fs, none⟩ :=
-        core_fill hbig hcore0 (fun x hx => by cases hx; exact ⟨hfs, hne⟩) (fun _ h => nomatch h)
+        held_fill hbig hcore0 (fun x hx => by cases hx; exact ⟨hfs, hne⟩) (fun _ h => nomatch h)
       exact tracks_of_text (textB_frac hb ht)
   · unfold Num.addFrac
     simp only [big_len_pos hne, ↓reduceIte]
@@ -481,11 +481,11 @@ theorem tracks_addExp (n : Num) (s : Bool) (ip : Bytes) (fo : Option Bytes) (e :
         have : (10 : UInt64).toNat = 10 := rfl
         rw [this, ← c6]
         omega
-      have hcore' : Core { n with exp := n.exp * 10 + (b - 48).toUInt64 } ⟨s, ip, fo, some ⟨e, sg, es ++ [b]⟩⟩ :=
+      have hcore' : Held { n with exp := n.exp * 10 + (b - 48).toUInt64 } ⟨s, ip, fo, some ⟨e, sg, es ++ [b]⟩⟩ :=
         ⟨c1, c2, c3, c4, c5, hexp, c7⟩
       by_cases hmax : (1022 : UInt64) < n.exp * 10 + (b - 48).toUInt64
       · simp only [hmax, ↓reduceIte]
-        refine tracks_of_text (core_fill hbig hcore' hfo (fun x hx => ?_))
+        refine tracks_of_text (held_fill hbig hcore' hfo (fun x hx => ?_))
         cases hx
         rw [UInt64.lt_iff_toNat_lt, hexp] at hmax
         have : (1022 : UInt64).toNat = 1022 := rfl
@@ -499,7 +499,7 @@ theorem tracks_addExp (n : Num) (s : Bool) (ip : Bytes) (fo : Option Bytes) (e :
         have : (102 : UInt64).toNat = 102 := rfl
         omega
       have ht : TextB n.fillBig.big ⟨s, ip, fo, some ⟨e, sg, es⟩⟩ :=
-        core_fill hbig hcore0 hfo (fun x hx => by cases hx; simp only; omega)
+        held_fill hbig hcore0 hfo (fun x hx => by cases hx; simp only; omega)
       exact tracks_of_text (textB_exp hb ht)
   · unfold Num.addExp
     simp only [big_len_pos hne, ↓reduceIte]
@@ -636,7 +636,7 @@ theorem tracks_asNum (n : Num) (p : Parts) (h : Tracks n p) (hw : p.WF) :
     · simp only [hint, Bool.false_eq_true, ↓reduceIte]
       -- float: the text written by `FillBig`
       by_cases hpos : ∀ x, p.eo = some x → 0 < natOf x.es
-      · obtain ⟨p', ht, hs⟩ := core_fill hbig hcore hwf hpos
+      · obtain ⟨p', ht, hs⟩ := held_fill hbig hcore hwf hpos
         obtain ⟨hw', hv⟩ := sim_pval hs ⟨hip, hipne, hwf, hwe⟩
         rw [ht, decVal_render p' hw', hv]
       · -- an exponent that is written but zero: `FillBig` omits it
@@ -653,10 +653,10 @@ theorem tracks_asNum (n : Num) (p : Parts) (h : Tracks n p) (hw : p.WF) :
         have hexp0 : n.exp = 0 := by
           apply UInt64.toNat_inj.mp
           rw [c6, heo]; exact hx0
-        have hcore0 : Core ({ n with negExp := false } : Num) { p with eo := none } :=
+        have hcore0 : Held ({ n with negExp := false } : Num) { p with eo := none } :=
           ⟨c1, c2, c3, c4, c5, by rw [c6, heo]; exact hx0, rfl⟩
         have hw0 : ({ p with eo := none } : Parts).WF := ⟨hip, hipne, hwf, fun _ h => nomatch h⟩
-        obtain ⟨p', ht, hs⟩ := core_fill (n := { n with negExp := false }) hbig hcore0 hwf (fun _ h => nomatch h)
+        obtain ⟨p', ht, hs⟩ := held_fill (n := { n with negExp := false }) hbig hcore0 hwf (fun _ h => nomatch h)
         obtain ⟨hw', hv⟩ := sim_pval hs hw0
         rw [fillBig_exp_zero n hexp0, ht, decVal_render p' hw', hv]
         have : expVal p.eo = 0 := expVal_zero _ (by rw [heo]; exact hx0)
